@@ -14,13 +14,22 @@ package main
 // Adding a decoder = adding one entry here and one entry in lean/Driver/C08.lean (`decoders` for a modelled
 // decoder, `rawDecoders` for an oracle-only one).
 //
+// Part 2: the decoders whose models other properties own are c08.dec entries too: palette (C12), section / chunk /
+// blockentity (C13), chat.json (C17 + the String frame), nbt (typed decoding through pk.NBTField: C02/C03), registry
+// (Registry[E].ReadFrom for RawMessage and the three typed registries).  Their observations are printed with the owning
+// harnesses' functions (c12ShowAll, c13DigLongs, c13EntObs, c17Tree, c17PrintMsg, c02Describe, c02ShowStr).  Only
+// chat.nbt (the NBT form of chat.Message: no Lean model yet) is still c08.raw, together with the long section / chunk
+// inputs that the quick tier keeps away from the quadratic-time model (c08SampleOp).
+//
 // Line formats
 //   c08.dec <decoder> <params> <hex> => ok [n=<returned count> used=<bytes consumed>] [v=…] | err [used=<k>] | panic | hang
 //       modelled decoders: the driver runs the Lean model and the spec oracle (never panic/hang; a negative
 //       or too large length prefix => err)
 //   c08.raw <decoder> <params> <hex> => ok used=<k> | err used=<k> | panic | hang
-//       oracle-only decoders (no Lean model yet): the driver applies only "never panic / never hang" and
-//       echoes the observation; listed in props/C08.json under oracle_only_decoders
+//       oracle-only decoders (no Lean model yet: chat.nbt) and the part of the chunk stream that is not run through
+//       the model (long inputs: the chunk model costs time quadratic in the input length, see c08ChunkOp): the driver
+//       applies only "never panic / never hang" and echoes the observation; listed in props/C08.json under
+//       oracle_only_decoders
 // and the lines of the decoders that other properties own (frame.unpack: C07, cmd.exec: CMD, dynbt.dec: DYNBT).
 //
 // Declared lengths are capped (c08Cap*) so that the real code never allocates more than ~64 MiB: memory
@@ -29,12 +38,14 @@ package main
 import (
 	"bufio"
 	"bytes"
+	"compress/zlib"
 	"encoding/binary"
 	"fmt"
 	"io"
 	"math/bits"
 	"math/rand"
 	"os"
+	"reflect"
 	"runtime"
 	"sort"
 	"strconv"
@@ -55,6 +66,10 @@ import (
 func init() {
 	props["C08"] = genC08
 	replayers["C08"] = replayC08
+	// the struct types of the typed nbt cases, so that their descriptions can be turned back into the types (C09, replay)
+	for _, v := range []any{c08Inner{}, c08Struct{}, c08HeightMaps{}} {
+		c02Register(v)
+	}
 }
 
 const (
@@ -332,6 +347,8 @@ type c08Decoder struct {
 	nRandQ, nRandT        int  // random inputs per params
 	// other: cases produced by another property's generator (frame, cmd, dynbt)
 	other func(c *Ctx)
+	// opFor (optional): the op of ONE case (c08.dec: compared with the model; c08.raw: oracle only); nil = always d.op
+	opFor func(c *Ctx, params string, in []byte) string
 }
 
 var c08Decoders []*c08Decoder
@@ -419,7 +436,24 @@ func c08EmitSmall(c *Ctx, d *c08Decoder, params string, in []byte) {
 var c08SkippedSmall int64
 
 // c08Emit runs decoder d on input (unless the allocation cap forbids it) and prints the line
-func c08Emit(c *Ctx, d *c08Decoder, params string, in []byte) {
+func c08Emit(c *Ctx, d *c08Decoder, params string, in []byte) { c08EmitAs(c, d, params, in, "") }
+
+// c08RawOf: the oracle-only form of a modelled observation: outcome class and consumed bytes
+func c08RawOf(obs string) string {
+	f := strings.Fields(obs)
+	if len(f) == 0 || (f[0] != "ok" && f[0] != "err") {
+		return obs
+	}
+	for _, t := range f[1:] {
+		if strings.HasPrefix(t, "used=") {
+			return f[0] + " " + t
+		}
+	}
+	return f[0]
+}
+
+// c08EmitAs: forceOp != "" (replay) fixes the op of the line
+func c08EmitAs(c *Ctx, d *c08Decoder, params string, in []byte, forceOp string) {
 	if d.walk != nil {
 		if w := d.walk(params, in); w.tooBig() {
 			atomic.AddInt64(&c08Skipped, 1)
@@ -431,12 +465,42 @@ func c08Emit(c *Ctx, d *c08Decoder, params string, in []byte) {
 	if st != "" {
 		obs = st
 	}
-	c.Emit(d.op, []string{d.name, params, hx(in)}, obs)
+	op := d.op
+	if forceOp != "" {
+		op = forceOp
+	} else if d.opFor != nil {
+		op = d.opFor(c, params, in)
+	}
+	if op == "c08.raw" && d.op == "c08.dec" && st == "" {
+		obs = c08RawOf(obs)
+	}
+	c.Emit(op, []string{d.name, params, hx(in)}, obs)
 	if st == "hang" {
 		// the abandoned goroutine may keep allocating: report what we have and stop generating
-		c.out.Flush()
-		os.Exit(0)
+		c08Abort(c)
 	}
+}
+
+// Output discipline of genC08.  Pool units write into buffers of their own, which the main goroutine copies to the
+// real output in registry order.  A unit that meets a hang must get its line OUT before the process stops (a hang that
+// never reaches the driver is a missed violation): c08Abort copies that unit's buffer — the hang line is its last line —
+// to the real output under c08OutMu (which the main goroutine holds whenever it writes) and exits.  The entries owned by
+// other properties' generators (frame, cmd, dynbt) stop the process themselves on a hang (`c.out.Flush(); os.Exit(0)`
+// in cmdExec): they are therefore run on a context that writes DIRECTLY to the real output.
+var (
+	c08OutMu    sync.Mutex
+	c08MainOut  *bufio.Writer
+	c08UnitBufs sync.Map // *Ctx (unit) -> *bytes.Buffer
+)
+
+func c08Abort(c *Ctx) {
+	c.out.Flush()
+	if buf, ok := c08UnitBufs.Load(c); ok && c08MainOut != nil {
+		c08OutMu.Lock()
+		c08MainOut.Write(buf.(*bytes.Buffer).Bytes())
+		c08MainOut.Flush()
+	}
+	os.Exit(0)
 }
 
 func c08PutLen(in []byte, f c08LenField, v int64) []byte {
@@ -904,7 +968,9 @@ func c08ValidTags(c *Ctx, params string, n int) [][]byte {
 }
 
 // ---------------------------------------------------------------------------------------------------------
-// oracle-only decoders (c08.raw): no Lean model yet
+// decoders whose models belong to other properties (C12 palette container, C13 section / chunk / block entity,
+// C17 JSON text component, C02/C03 typed nbt and NBTField, registries over them): c08.dec, printed with the owning
+// harness's printing functions; and the one oracle-only decoder left (chat.nbt: c08.raw)
 // ---------------------------------------------------------------------------------------------------------
 
 func c08RawObs(n int64, err error, used int) string {
@@ -915,16 +981,51 @@ func c08RawObs(n int64, err error, used int) string {
 	return fmt.Sprintf("ok used=%d", used)
 }
 
+// c08DecObs: the observation of a modelled decoder: outcome class, returned count, consumed bytes, value
+func c08DecObs(n int64, err error, used int, value func() string) string {
+	if err != nil {
+		return fmt.Sprintf("err used=%d", used)
+	}
+	v := "panic"
+	guard(func() { v = value() })
+	return fmt.Sprintf("ok n=%d used=%d v=%s", n, used, v)
+}
+
+// c08ContObs: every position of a container as Get reports it (C12's rendering: the list, or its digest when long);
+// after a successful ReadFrom of an ill-formed container a Get may panic (index outside the palette): "panic"
+func c08ContObs(cont c12Cont, n int) string {
+	xs := make([]int, n)
+	for i := range xs {
+		xs[i] = cont.Get(i)
+	}
+	return c12ShowAll(xs)
+}
+
+// c08Bits: the width a container announces (the first byte it writes)
+func c08Bits(w io.WriterTo) int {
+	var b bytes.Buffer
+	w.WriteTo(&b)
+	return int(b.Bytes()[0])
+}
+
+func c08SecObs(s *level.Section) string {
+	return fmt.Sprintf("%d.%s.%s.%d.%d", s.BlockCount, c08ContObs(c12W[level.BlocksState]{s.States}, 4096),
+		c08ContObs(c12W[level.BiomesState]{s.Biomes}, 64), c08Bits(s.States), c08Bits(s.Biomes))
+}
+
+// palette params: <states|biomes>/<registry width>
 func c08RunPalette(params string, in []byte) string {
 	br := bytes.NewReader(in)
-	var n int64
-	var err error
-	if params == "states" {
-		n, err = level.NewStatesPaletteContainer(16*16*16, 0).ReadFrom(br)
+	var cont c12Cont
+	n := 4096
+	if strings.HasPrefix(params, "states") {
+		cont = c12W[level.BlocksState]{level.NewStatesPaletteContainer(16*16*16, 0)}
 	} else {
-		n, err = level.NewBiomesPaletteContainer(4*4*4, 0).ReadFrom(br)
+		cont = c12W[level.BiomesState]{level.NewBiomesPaletteContainer(4*4*4, 0)}
+		n = 64
 	}
-	return c08RawObs(n, err, len(in)-br.Len())
+	nn, err := cont.ReadFrom(br)
+	return c08DecObs(nn, err, len(in)-br.Len(), func() string { return c08ContObs(cont, n) })
 }
 
 // paletteContainer: bits byte, palette (single: VarInt; linear/hash: VarInt size + VarInts; global: nothing), data array
@@ -954,7 +1055,7 @@ func (w *c08Cur) paletteContainer(states bool) {
 
 func c08WalkPalette(params string, in []byte) *c08Cur {
 	w := newCur(in)
-	w.paletteContainer(params == "states")
+	w.paletteContainer(strings.HasPrefix(params, "states"))
 	return w
 }
 
@@ -981,7 +1082,7 @@ func c08ValidPalette(c *Ctx, params string, n int) [][]byte {
 	for i := 0; i < n; i++ {
 		var buf bytes.Buffer
 		guard(func() {
-			if params == "states" {
+			if strings.HasPrefix(params, "states") {
 				c08StatesContainer(c).WriteTo(&buf)
 			} else {
 				c08BiomesContainer(c).WriteTo(&buf)
@@ -996,7 +1097,7 @@ func c08RunSection(_ string, in []byte) string {
 	br := bytes.NewReader(in)
 	s := &level.EmptyChunk(1).Sections[0]
 	n, err := s.ReadFrom(br)
-	return c08RawObs(n, err, len(in)-br.Len())
+	return c08DecObs(n, err, len(in)-br.Len(), func() string { return c08SecObs(s) })
 }
 
 func (w *c08Cur) section() {
@@ -1024,13 +1125,59 @@ func c08ValidSection(c *Ctx, _ string, n int) [][]byte {
 	return out
 }
 
-// chunk params: number of sections
+// chunk params: <number of sections>/<block registry width>/<biome registry width>
+func c08ChunkSecs(params string) int {
+	secs, _ := strconv.Atoi(strings.Split(params, "/")[0])
+	return secs
+}
+
 func c08RunChunk(params string, in []byte) string {
-	secs, _ := strconv.Atoi(params)
+	secs := c08ChunkSecs(params)
 	br := bytes.NewReader(in)
 	ch := level.EmptyChunk(secs)
 	n, err := ch.ReadFrom(br)
-	return c08RawObs(n, err, len(in)-br.Len())
+	return c08DecObs(n, err, len(in)-br.Len(), func() string { return c08ChunkObs(ch) })
+}
+
+func c08ChunkObs(ch *level.Chunk) string {
+	parts := make([]string, len(ch.Sections))
+	for i := range ch.Sections {
+		parts[i] = c08SecObs(&ch.Sections[i])
+	}
+	return strings.Join(parts, "/") + "," + c13DigLongs(ch.HeightMaps.MotionBlocking.Raw()) + "," +
+		c13DigLongs(ch.HeightMaps.WorldSurface.Raw()) + "," + c13EntObs(ch.BlockEntity)
+}
+
+// c08SampleOp: the stream model (a list of bytes) makes every read cost time proportional to what is left, so the
+// section and chunk models cost time quadratic in the input length (about 5 ms for a 4 KB section, 60 ms for a 16 KB
+// chunk, seconds for a 24-section chunk).  Inputs up to c08ModelMax bytes are all compared with the model; a longer one
+// with probability inversely proportional to its cost (len/1000)^2: one in cost/3 in the quick tier, one in cost/40 in
+// the thorough tier (so a 2.5 KB chunk always, a 4 KB section one in 5 / always, a 16 KB chunk one in 85 / 6), chosen by
+// a hash of the input so that a replay makes the same choice.  The others go out as c08.raw lines: the real decoder
+// still runs on them under the oracle "never panic, never hang".
+const c08ModelMax = 1200
+
+func c08SampleOp(c *Ctx, _ string, in []byte) string {
+	if len(in) <= c08ModelMax {
+		return "c08.dec"
+	}
+	budget := 3.0
+	if c.Thorough() {
+		budget = 40.0
+	}
+	k := float64(len(in)) / 1000
+	every := uint32(k * k / budget)
+	if every <= 1 {
+		return "c08.dec"
+	}
+	h := uint32(2166136261)
+	for _, b := range in {
+		h = (h ^ uint32(b)) * 16777619
+	}
+	if h%every == 0 {
+		return "c08.dec"
+	}
+	return "c08.raw"
 }
 
 func (w *c08Cur) blockEntity() {
@@ -1040,7 +1187,7 @@ func (w *c08Cur) blockEntity() {
 }
 
 func c08WalkChunk(params string, in []byte) *c08Cur {
-	secs, _ := strconv.Atoi(params)
+	secs := c08ChunkSecs(params)
 	w := newCur(in)
 	w.nbtNet() // height maps
 	dataLen := w.length("varint", 1, 1)
@@ -1081,7 +1228,7 @@ func c08WalkChunk(params string, in []byte) *c08Cur {
 }
 
 func c08ValidChunk(c *Ctx, params string, n int) [][]byte {
-	secs, _ := strconv.Atoi(params)
+	secs := c08ChunkSecs(params)
 	var out [][]byte
 	for i := 0; i < n; i++ {
 		var buf bytes.Buffer
@@ -1122,7 +1269,7 @@ func c08RunBlockEntity(_ string, in []byte) string {
 	br := bytes.NewReader(in)
 	var be level.BlockEntity
 	n, err := be.ReadFrom(br)
-	return c08RawObs(n, err, len(in)-br.Len())
+	return c08DecObs(n, err, len(in)-br.Len(), func() string { return c13EntObs([]level.BlockEntity{be}) })
 }
 
 func c08WalkBlockEntity(_ string, in []byte) *c08Cur {
@@ -1241,11 +1388,30 @@ func c08ValidChatNBT(c *Ctx, _ string, n int) [][]byte {
 	return out
 }
 
+// chat.json: JsonMessage.ReadFrom = a String field + encoding/json.  The JSON text <-> tree layer of encoding/json is
+// trusted (C17): the observation carries the tree of the String's payload (tree=<C17 tree token>, `!` = not a JSON
+// text, `-` = the String field itself is truncated or has a negative length), found by an own reading of the frame.
+func c08JSONTree(in []byte) string {
+	w := newCur(in)
+	n := w.varN(5)
+	if !w.ok || n < 0 || w.pos+int(n) > len(in) {
+		return "-"
+	}
+	return c17Tree(in[w.pos : w.pos+int(n)])
+}
+
 func c08RunChatJSON(_ string, in []byte) string {
 	br := bytes.NewReader(in)
 	var m chat.JsonMessage
 	n, err := m.ReadFrom(br)
-	return c08RawObs(n, err, len(in)-br.Len())
+	used := len(in) - br.Len()
+	tree := c08JSONTree(in)
+	if err != nil {
+		return fmt.Sprintf("err used=%d tree=%s", used, tree)
+	}
+	v := "panic"
+	guard(func() { v = c17PrintMsg(chat.Message(m)) })
+	return fmt.Sprintf("ok n=%d used=%d tree=%s v=%s", n, used, tree, v)
 }
 
 func c08WalkString(_ string, in []byte) *c08Cur {
@@ -1297,40 +1463,65 @@ type c08Struct struct {
 	LL  [][]int32        `nbt:"ll"`
 }
 
-func c08RunNBTStruct(params string, in []byte) string {
-	br := bytes.NewReader(in)
-	var n int64
-	var err error
-	switch params {
-	case "struct":
-		var v c08Struct
-		n, err = pk.NBT(&v).ReadFrom(br)
-	case "any":
-		var v any
-		n, err = pk.NBT(&v).ReadFrom(br)
-	case "map":
-		var v map[string]any
-		n, err = pk.NBT(&v).ReadFrom(br)
-	case "heightmaps":
-		var v struct {
-			MotionBlocking []uint64 `nbt:"MOTION_BLOCKING"`
-			WorldSurface   []uint64 `nbt:"WORLD_SURFACE"`
+// nbt params: <key>:<allow unknown fields 0|1>:<type description (harness/c02.go)>
+// The destination types of the typed nbt decoder as the bot and server use it through pk.NBT / pk.NBTField; the type
+// travels to the driver as C02's description (produced from the reflect.Type), the value comes back in C02's rendering.
+type c08HeightMaps struct {
+	MotionBlocking []uint64 `nbt:"MOTION_BLOCKING"`
+	WorldSurface   []uint64 `nbt:"WORLD_SURFACE"`
+}
+
+type c08NbtDest struct {
+	key   string
+	allow bool
+	t     reflect.Type
+}
+
+var c08NbtDests = []c08NbtDest{
+	{"any", false, c02AnyT},
+	{"strict", false, reflect.TypeOf(c08Inner{})},
+	{"struct", false, reflect.TypeOf(c08Struct{})},
+	{"map", false, reflect.TypeOf(map[string]any{})},
+	{"heightmaps", false, reflect.TypeOf(c08HeightMaps{})},
+	{"loose", true, reflect.TypeOf(c08Inner{})},
+	{"raw", true, c02RawT},
+}
+
+func c08NbtParams(*Ctx) []string {
+	var ps []string
+	for _, d := range c08NbtDests {
+		a := "0"
+		if d.allow {
+			a = "1"
 		}
-		n, err = pk.NBT(&v).ReadFrom(br)
-	case "strict":
-		var v c08Inner
-		n, err = pk.NBTField{V: &v, AllowUnknownFields: false}.ReadFrom(br)
-	default:
-		panic("bad nbt params")
+		ps = append(ps, d.key+":"+a+":"+c02Describe(d.t))
 	}
-	return c08RawObs(n, err, len(in)-br.Len())
+	return ps
+}
+
+func c08NbtDestOf(params string) (reflect.Type, bool) {
+	f := strings.SplitN(params, ":", 3)
+	for _, d := range c08NbtDests {
+		if d.key == f[0] {
+			return d.t, f[1] == "1"
+		}
+	}
+	panic("bad nbt params " + params)
+}
+
+func c08RunNBTStruct(params string, in []byte) string {
+	t, allow := c08NbtDestOf(params)
+	br := bytes.NewReader(in)
+	dst := reflect.New(t)
+	n, err := pk.NBTField{V: dst.Interface(), AllowUnknownFields: allow}.ReadFrom(br)
+	return c08DecObs(n, err, len(in)-br.Len(), func() string { return c02ShowStr(dst.Elem()) })
 }
 
 func c08ValidNBTStruct(c *Ctx, params string, n int) [][]byte {
 	var out [][]byte
 	for i := 0; i < n; i++ {
 		switch {
-		case params == "struct" && i%2 == 0:
+		case strings.HasPrefix(params, "struct:") && i%2 == 0:
 			// a compound using the struct's keys with well-typed and ill-typed values
 			var g gdoc
 			g.b = append(g.b, 10)
@@ -1353,20 +1544,62 @@ func c08ValidNBTStruct(c *Ctx, params string, n int) [][]byte {
 	return out
 }
 
-// registry.rawmsg: Registry[nbt.RawMessage].ReadFrom, the instance the bot uses for most registries;
-// registry.codec: the typed registries of NewNetworkCodec
-func c08RunRegistryRaw(params string, in []byte) string {
-	br := bytes.NewReader(in)
-	var n int64
-	var err error
-	if params == "rawmsg" {
-		reg := mcreg.NewRegistry[nbt.RawMessage]()
-		n, err = reg.ReadFrom(br)
-	} else {
-		codec := mcreg.NewNetworkCodec()
-		n, err = codec.Registry(params).ReadFrom(br)
+// registry params: <key>:<element type description>.  rawmsg: Registry[nbt.RawMessage], the instance the bot uses for
+// most registries; the three typed registries of NewNetworkCodec.  The registry loop is C08's model (Model/Registry),
+// the element decoder is NBTField over the typed nbt model.
+var c08RegElems = map[string]reflect.Type{
+	"rawmsg":                   c02RawT,
+	"minecraft:chat_type":      reflect.TypeOf(mcreg.ChatType{}),
+	"minecraft:damage_type":    reflect.TypeOf(mcreg.DamageType{}),
+	"minecraft:dimension_type": reflect.TypeOf(mcreg.Dimension{}),
+}
+
+func c08RegParams(*Ctx) []string {
+	var ps []string
+	for _, k := range []string{"rawmsg", "minecraft:chat_type", "minecraft:damage_type", "minecraft:dimension_type"} {
+		ps = append(ps, strings.ReplaceAll(k, ":", ".")+":"+c02Describe(c08RegElems[k]))
 	}
-	return c08RawObs(n, err, len(in)-br.Len())
+	return ps
+}
+
+func c08RegObs[E any](reg *mcreg.Registry[E], in []byte) string {
+	reg.Put("stale", *new(E)) // ReadFrom clears what the registry held
+	br := bytes.NewReader(in)
+	n, err := reg.ReadFrom(br)
+	return c08DecObs(n, err, len(in)-br.Len(), func() string {
+		keyOf := map[int32]string{}
+		for k, id := range reg.VerifKeys() {
+			keyOf[id] = k
+		}
+		var parts []string
+		for id := 0; id < reg.VerifLen(); id++ {
+			k := "?"
+			if s, ok := keyOf[int32(id)]; ok {
+				k = hx([]byte(s))
+			}
+			parts = append(parts, k+"="+c02ShowStr(reflect.ValueOf(reg.GetByID(int32(id))).Elem()))
+		}
+		if len(parts) == 0 {
+			return "-"
+		}
+		return strings.Join(parts, "#")
+	})
+}
+
+func c08RunRegistryRaw(params string, in []byte) string {
+	codec := mcreg.NewNetworkCodec()
+	switch strings.SplitN(params, ":", 2)[0] {
+	case "rawmsg":
+		reg := mcreg.NewRegistry[nbt.RawMessage]()
+		return c08RegObs(&reg, in)
+	case "minecraft.chat_type":
+		return c08RegObs(&codec.ChatType, in)
+	case "minecraft.damage_type":
+		return c08RegObs(&codec.DamageType, in)
+	case "minecraft.dimension_type":
+		return c08RegObs(&codec.DimensionType, in)
+	}
+	panic("bad registry params " + params)
 }
 
 // ---------------------------------------------------------------------------------------------------------
@@ -1455,28 +1688,30 @@ func c08InitRegistry() {
 	c08Register(&c08Decoder{name: "cmd", other: c08CMD})
 	c08Register(&c08Decoder{name: "dynbt", other: c08DYNBT})
 
-	// ---- oracle-only ----
-	raw := func(name string, params func(*Ctx) []string, valid func(*Ctx, string, int) [][]byte, walk func(string, []byte) *c08Cur,
-		run func(string, []byte) string, exhT int, nv, nr int) {
-		c08Register(&c08Decoder{name: name, op: "c08.raw", params: params, valid: valid, walk: walk, run: run,
-			exhQuick: 2, exhThorough: exhT, exhFirst: 2, nValidQ: nv, nValidT: nv * 8, nRandQ: nr, nRandT: nr * 20})
+	// ---- decoders whose models other properties own (C12, C13, C17, C02/C03), and the oracle-only rest ----
+	ext := func(op, name string, params func(*Ctx) []string, valid func(*Ctx, string, int) [][]byte, walk func(string, []byte) *c08Cur,
+		run func(string, []byte) string, exhT int, nv, nr int) *c08Decoder {
+		d := &c08Decoder{name: name, op: op, params: params, valid: valid, walk: walk, run: run,
+			exhQuick: 2, exhThorough: exhT, exhFirst: 2, nValidQ: nv, nValidT: nv * 8, nRandQ: nr, nRandT: nr * 20}
+		c08Register(d)
+		return d
 	}
-	raw("palette", func(*Ctx) []string { return []string{"states", "biomes"} }, c08ValidPalette, c08WalkPalette, c08RunPalette, 3, 12, 1500)
-	raw("section", one("-"), c08ValidSection, c08WalkSection, c08RunSection, 2, 12, 1500)
-	raw("chunk", func(c *Ctx) []string {
+	ext("c08.dec", "palette", func(*Ctx) []string {
+		return []string{fmt.Sprintf("states/%d", c12GB("blocks")), fmt.Sprintf("biomes/%d", c12GB("biomes"))}
+	}, c08ValidPalette, c08WalkPalette, c08RunPalette, 3, 12, 1500)
+	gbs := fmt.Sprintf("%d/%d", c12GB("blocks"), c12GB("biomes"))
+	ext("c08.dec", "section", one(gbs), c08ValidSection, c08WalkSection, c08RunSection, 2, 12, 1500).opFor = c08SampleOp
+	ext("c08.dec", "chunk", func(c *Ctx) []string {
 		if c.Thorough() {
-			return []string{"1", "2", "3", "24"}
+			return []string{"1/" + gbs, "2/" + gbs, "3/" + gbs, "24/" + gbs}
 		}
-		return []string{"1", "2", "3"}
-	}, c08ValidChunk, c08WalkChunk, c08RunChunk, 2, 4, 600)
-	raw("blockentity", one("-"), c08ValidBlockEntity, c08WalkBlockEntity, c08RunBlockEntity, 2, 40, 1500)
-	raw("chat.nbt", one("-"), c08ValidChatNBT, c08WalkNBT, c08RunChatNBT, 2, 80, 3000)
-	raw("chat.json", one("-"), c08ValidChatJSON, c08WalkString, c08RunChatJSON, 2, 30, 1500)
-	raw("nbt", func(*Ctx) []string { return []string{"struct", "any", "map", "heightmaps", "strict"} }, c08ValidNBTStruct, c08WalkNBT, c08RunNBTStruct, 2, 60, 2000)
-	raw("registry", func(*Ctx) []string {
-		return []string{"rawmsg", "minecraft:chat_type", "minecraft:damage_type", "minecraft:dimension_type"}
-	}, c08ValidRegistry, c08WalkRegistry, c08RunRegistryRaw, 2, 40, 1000)
-	c08ByName["registry"].exhFirst = 1
+		return []string{"1/" + gbs, "2/" + gbs, "3/" + gbs}
+	}, c08ValidChunk, c08WalkChunk, c08RunChunk, 2, 4, 600).opFor = c08SampleOp
+	ext("c08.dec", "blockentity", one("-"), c08ValidBlockEntity, c08WalkBlockEntity, c08RunBlockEntity, 2, 40, 1500)
+	ext("c08.raw", "chat.nbt", one("-"), c08ValidChatNBT, c08WalkNBT, c08RunChatNBT, 2, 80, 3000)
+	ext("c08.dec", "chat.json", one("-"), c08ValidChatJSON, c08WalkString, c08RunChatJSON, 2, 30, 1500)
+	ext("c08.dec", "nbt", c08NbtParams, c08ValidNBTStruct, c08WalkNBT, c08RunNBTStruct, 2, 60, 2000)
+	ext("c08.dec", "registry", c08RegParams, c08ValidRegistry, c08WalkRegistry, c08RunRegistryRaw, 2, 40, 1000).exhFirst = 1
 }
 
 // ---- the decoders other properties own ----
@@ -1493,7 +1728,67 @@ func c08Frames(c *Ctx) {
 	for i := 0; i < rounds; i++ {
 		c07Malformed(&q)
 	}
+	c08FramesPaddedID(&q)
 	c.count = q.count
+}
+
+// c08FramesPaddedID: frames whose packet id is a NON-MINIMAL VarInt (2..5 bytes on the wire for a value that fits in
+// fewer: 80 00, 80 80 80 80 00, ff 80 00 …) — in the inflated content of a compressed frame, in the plain-in-compressed
+// form and in the uncompressed format — with every Data Length / Length from 0 to one past the id's WIRE length plus the
+// payload.  A Data Length at or above the threshold (thresholds 0 and 1) but below the bytes the id took must be an
+// error: subtracting the id's wire length from it gives a negative slice bound (the check has to use the bytes READ, not
+// the minimal encoding length of the value).  The lines go through C07's frame runner and model (frame.unpack).
+func c08FramesPaddedID(c *Ctx) {
+	pad := func(v uint32, w int) []byte {
+		out := make([]byte, w)
+		for i := 0; i < w; i++ {
+			out[i] = byte(v>>(7*uint(i))) & 0x7f
+			if i < w-1 {
+				out[i] |= 0x80
+			}
+		}
+		return out
+	}
+	deflate := func(content []byte) []byte {
+		var b bytes.Buffer
+		zw := zlib.NewWriter(&b)
+		zw.Write(content)
+		zw.Close()
+		return b.Bytes()
+	}
+	un := func(t int, in []byte) {
+		c07Unpack(c, t, c.c07Recv(len(in)), c.c07Kind(), hx(in))
+	}
+	for _, v := range []uint32{0, 1, 0x7f, 0x80, 0x3fff, 0x1fffff} {
+		min := len(leb(uint64(v)))
+		for w := min; w <= 5; w++ {
+			id := pad(v, w)
+			for _, nData := range []int{0, 1, 4} {
+				data := c.randBytes(nData)
+				content := cat(id, data)
+				z := deflate(content)
+				var trail []byte
+				if nData == 1 {
+					trail = c.randBytes(2)
+				}
+				for _, t := range []int{0, 1, 2, 5} {
+					// compressed: Data Length 0 is the plain form; 1..w-1 is below the id's wire length
+					for dl := 1; dl <= w+nData+1; dl++ {
+						body := cat(leb32(int32(dl)), z)
+						un(t, cat(leb32(int32(len(body))), body, trail))
+					}
+					// plain-in-compressed: Data Length 0, Packet Length from "only the Data Length byte" upwards
+					for pl := 1; pl <= 1+w+nData+1; pl++ {
+						un(t, cat(leb32(int32(pl)), []byte{0}, content, trail))
+					}
+				}
+				// uncompressed format: Length 0 … one past the content
+				for l := 0; l <= w+nData+1; l++ {
+					un(-1, cat(leb32(int32(l)), content, trail))
+				}
+			}
+		}
+	}
 }
 
 // c08CMD: the command dispatcher on arbitrary lines: a reduced scope of the CMD generator (quick: ~38k lines,
@@ -1522,7 +1817,77 @@ func c08CMD(c *Ctx) {
 		for j := 0; j < 4; j++ {
 			cmdExec(c, gs, g, cmdRandLine(c, 24))
 		}
+		if k%20 == 0 {
+			c08CmdBlanks(c, gs, g, 12)
+		}
 	}
+	// blanks other than a space in front of every literal and argument, at every depth, for every test graph
+	for _, gs := range append([]string{cmdIdiomaticDesc}, cmdFixed...) {
+		g, _ := parseCmdGraph(gs)
+		c08CmdBlanks(c, gs, g, 40)
+	}
+}
+
+// c08CmdBlanks: a small deterministic family of lines for graph g: every walk from the root of up to four nodes (the
+// first maxWalks of them, children in order), written with single spaces between the elements — a literal by its name,
+// an argument by a word / a quoted phrase / a greedy phrase according to its parser — and then, for each position in
+// turn, with a TAB, tab+space, space+tab or a newline in front of that element instead (position 0: a leading blank),
+// and once with a trailing tab.  `Graph.Execute` trims blanks between elements with strings.TrimSpace and `Node.next`
+// matches the next literal on the trimmed text, so every one of these is either handled like the single-space line or
+// refused — never a panic of `Node.parse` ("expect \tuuids prefixed with uuids").
+func c08CmdBlanks(c *Ctx, gs string, g cmdGraph, maxWalks int) {
+	blanks := []string{"\t", "\t ", " \t", "\n"}
+	walks := 0
+	var rec func(node int, toks []string)
+	emit := func(toks []string) {
+		cmdExec(c, gs, g, strings.Join(toks, " "))
+		for i := range toks {
+			for _, b := range blanks {
+				var sb strings.Builder
+				for j, t := range toks {
+					switch {
+					case j == i:
+						sb.WriteString(b)
+					case j > 0:
+						sb.WriteByte(' ')
+					}
+					sb.WriteString(t)
+				}
+				cmdExec(c, gs, g, sb.String())
+			}
+		}
+		cmdExec(c, gs, g, strings.Join(toks, " ")+"\t")
+	}
+	rec = func(node int, toks []string) {
+		if walks >= maxWalks {
+			return
+		}
+		if len(toks) > 0 {
+			walks++
+			emit(toks)
+		}
+		if len(toks) == 4 {
+			return
+		}
+		for _, ch := range g[node].children {
+			if ch >= len(g) {
+				continue
+			}
+			tok := g[ch].name
+			if g[ch].kind == 'A' {
+				switch g[ch].parser {
+				case 1:
+					tok = `"q q"`
+				case 2:
+					tok = "g g"
+				default:
+					tok = "w1"
+				}
+			}
+			rec(ch, append(append([]string{}, toks...), tok))
+		}
+	}
+	rec(0, nil)
 }
 
 // c08DYNBT: dynbt.Value through nbt.Decoder (network and file format): the engine's mutations on generated
@@ -1571,7 +1936,8 @@ func c08DYNBT(c *Ctx) {
 // genC08: every (entry, parameter string) is one unit of work with its own PRNG (derived from the seed and the unit's
 // position) and its own output buffer; units run on a worker pool and the buffers are written in registry order, so
 // the output does not depend on the number of workers.  Entries owned by other properties' generators use package
-// level state of those generators and run one after the other on the calling goroutine.
+// level state of those generators and run one after the other on the calling goroutine, first, writing straight to the
+// real output (see c08Abort for why).
 func genC08(c *Ctx) {
 	c08InitRegistry()
 	type unit struct {
@@ -1601,9 +1967,15 @@ func genC08(c *Ctx) {
 			}
 		}
 	}
+	c08MainOut = c.out
 	for k, u := range units {
 		u.sub = mk(7919*(k+1) + 1)
+		if u.d.other != nil {
+			u.sub.out = c.out // these generators stop the process themselves on a hang: straight to the real output
+			continue
+		}
 		u.sub.out = bufio.NewWriterSize(&u.buf, 1<<16)
+		c08UnitBufs.Store(u.sub, &u.buf)
 	}
 	workers := runtime.NumCPU()
 	if workers > 12 {
@@ -1646,22 +2018,31 @@ func genC08(c *Ctx) {
 			}(k, u)
 		}
 	}()
-	go func() { // the entries that other properties' generators own: one after the other
-		for k, u := range units {
-			if u.d.other != nil {
-				t0 := time.Now()
-				u.d.other(u.sub)
-				u.sub.out.Flush()
-				u.dur = time.Since(t0)
-				close(done[k])
-			}
+	// the entries that other properties' generators own: one after the other on this goroutine, writing to the real
+	// output (the pool fills its window meanwhile)
+	c08OutMu.Lock()
+	for k, u := range units {
+		if u.d.other != nil {
+			t0 := time.Now()
+			u.d.other(u.sub)
+			u.dur = time.Since(t0)
+			c.count += u.sub.count
+			close(done[k])
 		}
-	}()
+	}
+	c.out.Flush()
+	c08OutMu.Unlock()
 	for k, u := range units {
 		<-done[k]
-		c.out.Write(u.buf.Bytes())
-		c.count += u.sub.count
-		u.buf = bytes.Buffer{}
+		if u.d.other == nil {
+			c08OutMu.Lock()
+			c.out.Write(u.buf.Bytes())
+			c.out.Flush()
+			c08OutMu.Unlock()
+			c.count += u.sub.count
+			c08UnitBufs.Delete(u.sub)
+			u.buf = bytes.Buffer{}
+		}
 		mu.Lock()
 		flushed = k + 1
 		cond.Broadcast()
@@ -1738,8 +2119,8 @@ func replayC08(c *Ctx, op string, args []string) bool {
 	switch op {
 	case "c08.dec", "c08.raw":
 		for _, d := range c08Decoders {
-			if d.name == args[0] && d.op == op {
-				c08Emit(c, d, args[1], unhx(args[2]))
+			if d.name == args[0] && (d.op == op || d.opFor != nil) {
+				c08EmitAs(c, d, args[1], unhx(args[2]), op)
 				return true
 			}
 		}
